@@ -112,6 +112,13 @@ fn fri_verify_layers(
         let mut target_layer_witness_leaves = target_layer_witness.leaves.to_owned();
         let target_layer_witness_table_withness = target_layer_witness.table_witness.to_owned();
         let target_commitment = commitment.get(i).unwrap().clone();
+        #[cfg(swiftness_verif)]
+        swiftness_transcript::verif::ev("fri.layer")
+            .u("i", i as u64)
+            .f("step", step_sizes.get(i).unwrap())
+            .f("eval_point", eval_points.get(i).unwrap())
+            .fs("leaves", target_layer_witness_leaves.iter())
+            .emit();
 
         // Params.
         let coset_size = Felt::TWO.pow_felt(step_sizes.get(i).unwrap());
@@ -156,6 +163,15 @@ pub fn fri_verify(
     // Compute first FRI layer queries.
     let fri_queries = gather_first_layer_queries(queries, decommitment.values, decommitment.points);
 
+    #[cfg(swiftness_verif)]
+    swiftness_transcript::verif::ev("fri.begin")
+        .f("n_layers", &commitment.config.n_layers)
+        .f("log_input_size", &commitment.config.log_input_size)
+        .f("log_last", &commitment.config.log_last_layer_degree_bound)
+        .fs("steps", commitment.config.fri_step_sizes.iter())
+        .u("n_coefs", commitment.last_layer_coefficients.len() as u64)
+        .fs("group", get_fri_group().iter())
+        .emit();
     // Compute fri_group.
     let fri_group = get_fri_group();
 
